@@ -25,4 +25,491 @@ theorem readonly_refuses (s : St) (objs : List Nat) (ops : List (Nat × Nat × N
 
 example : (setP (makeReadOnly (create St.empty [0] none) [0]) 0 0 5).2 = false := by decide
 
+
+
+/-- the per-object slice of the state -/
+structure PO where
+  vals : Nat → Nat
+  assigned : Nat
+  backup : List Frame
+  cache : Nat → Option Nat
+  cacheBk : List (Nat → Option Nat)
+  grid : Option GridVal
+  gridBk : List GridVal
+
+def proj (s : St) (o : Nat) : PO :=
+  ⟨s.vals o, s.assigned o, s.backup o, s.cache o, s.cacheBk o, s.grid o, s.gridBk o⟩
+
+/-- what `backUp` does to one object -/
+def pushPO (q : PO) : PO :=
+  { vals := q.vals
+    assigned := q.assigned &&& (255 - SINCE_BACKUP)
+    backup := { vals := q.vals, assigned := q.assigned } :: q.backup
+    cache := fun _ => none
+    cacheBk := q.cache :: q.cacheBk
+    grid := q.grid
+    gridBk := match q.grid with
+      | none => q.gridBk
+      | some g => g :: q.gridBk }
+
+def chOf (keep defs : List Nat) (q : PO) (fr : Frame) : List Nat :=
+  if q.assigned &&& SINCE_BACKUP ≠ 0 then
+    (keep.filter (fun x => decide (x ∈ defs))).filter (fun x => fr.vals x ≠ q.vals x)
+  else []
+
+/-- what `restoreBackup(keep)` does to one object -/
+def popPO (keep defs : List Nat) (q : PO) : PO :=
+  match q.backup with
+  | [] => q
+  | fr :: rest =>
+    { vals := fun x => if x ∈ chOf keep defs q fr then q.vals x else fr.vals x
+      assigned := if (chOf keep defs q fr).isEmpty then fr.assigned else SINCE_ANYTHING
+      backup := rest
+      cache := q.cacheBk.headD (fun _ => none)
+      cacheBk := q.cacheBk.tail
+      grid := match q.grid, q.gridBk with
+        | some _, g :: _ => some g
+        | _, _ => q.grid
+      gridBk := match q.grid with
+        | some _ => q.gridBk.tail
+        | none => q.gridBk }
+
+private theorem proj_backUpObj (s : St) (a o : Nat) :
+    proj (backUpObj s a) o = if o = a then pushPO (proj s o) else proj s o := by
+  by_cases h : o = a
+  · subst h
+    simp only [if_true, proj, backUpObj, pushPO, upd]
+    cases hg : s.grid o <;> simp [upd]
+  · simp only [h, if_false, proj, backUpObj, upd]
+    cases hg : s.grid a <;> simp [upd, h]
+
+private theorem proj_restoreObj (keep : List Nat) (s : St) (a o : Nat) :
+    proj (restoreObj keep s a) o = if o = a then popPO keep (s.defs o) (proj s o) else proj s o := by
+  by_cases h : o = a
+  · subst h
+    simp only [if_true, proj, restoreObj, popPO]
+    cases hb : s.backup o with
+    | nil => simp [hb]
+    | cons fr rest =>
+      simp only [upd, if_true, keptChanged, chOf]
+      cases hg : s.grid o <;> cases hk : s.gridBk o <;> simp [upd, hg, hk]
+  · simp only [h, if_false, proj, restoreObj]
+    cases hb : s.backup a with
+    | nil => rfl
+    | cons fr rest =>
+      simp only [upd, h, if_false]
+      cases hg : s.grid a <;> cases hk : s.gridBk a <;> simp [upd, h, hg, hk]
+
+private theorem defs_backUpObj (s : St) (a : Nat) : (backUpObj s a).defs = s.defs := rfl
+private theorem defs_restoreObj (keep : List Nat) (s : St) (a : Nat) : (restoreObj keep s a).defs = s.defs := by
+  unfold restoreObj; split <;> rfl
+private theorem proj_backUpDef (s : St) (d o : Nat) : proj (backUpDef s d) o = proj s o := rfl
+private theorem proj_restoreDef (keep : List Nat) (s : St) (d o : Nat) : proj (restoreDef keep s d) o = proj s o := by
+  unfold restoreDef; split <;> rfl
+private theorem defs_backUpDef (s : St) (d : Nat) : (backUpDef s d).defs = s.defs := rfl
+private theorem defs_restoreDef (keep : List Nat) (s : St) (d : Nat) : (restoreDef keep s d).defs = s.defs := by
+  unfold restoreDef; split <;> rfl
+
+private theorem foldl_keep {β} (f : St → Nat → St) (g : St → β) (hf : ∀ s a, g (f s a) = g s) :
+    ∀ (l : List Nat) (s : St), g (l.foldl f s) = g s
+  | [], _ => rfl
+  | a :: rest, s => by rw [List.foldl_cons, foldl_keep f g hf rest, hf]
+
+private theorem proj_foldl_backUp (o : Nat) : ∀ (objs : List Nat) (s : St), objs.Nodup →
+    proj (objs.foldl backUpObj s) o = if o ∈ objs then pushPO (proj s o) else proj s o
+  | [], s, _ => by simp
+  | a :: rest, s, hnd => by
+    have hnd' := List.nodup_cons.mp hnd
+    rw [List.foldl_cons, proj_foldl_backUp o rest _ hnd'.2, proj_backUpObj]
+    by_cases hr : o ∈ rest
+    · have : o ≠ a := by intro e; subst e; exact hnd'.1 hr
+      simp [hr, this]
+    · by_cases ha : o = a
+      · subst ha; simp [hnd'.1]
+      · simp [hr, ha]
+
+private theorem proj_foldl_restore (keep : List Nat) (o : Nat) : ∀ (objs : List Nat) (s : St), objs.Nodup →
+    proj (objs.foldl (restoreObj keep) s) o = if o ∈ objs then popPO keep (s.defs o) (proj s o) else proj s o
+  | [], s, _ => by simp
+  | a :: rest, s, hnd => by
+    have hnd' := List.nodup_cons.mp hnd
+    rw [List.foldl_cons, proj_foldl_restore keep o rest _ hnd'.2, proj_restoreObj, defs_restoreObj]
+    by_cases hr : o ∈ rest
+    · have : o ≠ a := by intro e; subst e; exact hnd'.1 hr
+      simp [hr, this]
+    · by_cases ha : o = a
+      · subst ha; simp [hnd'.1]
+      · simp [hr, ha]
+
+private theorem proj_enter (s : St) (objs : List Nat) (hnd : objs.Nodup) (o : Nat) :
+    proj (enter s objs) o = if o ∈ objs then pushPO (proj s o) else proj s o := by
+  unfold enter
+  rw [foldl_keep backUpDef (fun t => proj t o) (fun t d => proj_backUpDef t d o)]
+  exact proj_foldl_backUp o objs s hnd
+
+private theorem defs_enter (s : St) (objs : List Nat) : (enter s objs).defs = s.defs := by
+  unfold enter
+  rw [foldl_keep backUpDef (fun t => t.defs) (fun t d => defs_backUpDef t d)]
+  exact foldl_keep backUpObj (fun t => t.defs) (fun t a => defs_backUpObj t a) objs s
+
+private theorem proj_exit (s : St) (objs keep : List Nat) (hnd : objs.Nodup) (o : Nat) :
+    proj (exit s objs keep) o = if o ∈ objs then popPO keep (s.defs o) (proj s o) else proj s o := by
+  unfold exit
+  rw [foldl_keep (restoreDef keep) (fun t => proj t o) (fun t d => proj_restoreDef keep t d o)]
+  exact proj_foldl_restore keep o objs s hnd
+
+private theorem defs_exit (s : St) (objs keep : List Nat) : (exit s objs keep).defs = s.defs := by
+  unfold exit
+  rw [foldl_keep (restoreDef keep) (fun t => t.defs) (fun t d => defs_restoreDef keep t d)]
+  exact foldl_keep (restoreObj keep) (fun t => t.defs) (fun t a => defs_restoreObj keep t a) objs s
+
+/-- every scope of the program is opened on a duplicate-free list of objects (a subtree: C01) -/
+def WF : Prog → Prop
+  | .skip => True
+  | .set _ _ _ => True
+  | .cacheSet _ _ _ => True
+  | .gridSet _ _ => True
+  | .seq a b => WF a ∧ WF b
+  | .scope objs _ body => objs.Nodup ∧ WF body
+
+/-- the link between `assigned` and the innermost back-up that `restoreBackup` relies on -/
+def Good (q : PO) : Prop :=
+  match q.backup with
+  | [] => True
+  | fr :: _ => q.assigned &&& SINCE_BACKUP = 0 → q.vals = fr.vals
+
+/-- the parts of an object's slice a well-bracketed program leaves alone -/
+def SameStacks (q r : PO) : Prop :=
+  r.backup = q.backup ∧ r.cacheBk = q.cacheBk ∧ r.gridBk = q.gridBk ∧ r.grid.isSome = q.grid.isSome
+
+private theorem good_push (q : PO) : Good (pushPO q) := by
+  intro _; rfl
+
+private theorem proj_set (s : St) (a x v o : Nat) :
+    proj (setP s a x v).1 o =
+      if o = a ∧ s.readOnly a = false then { proj s o with vals := upd (s.vals o) x v, assigned := SINCE_ANYTHING }
+      else proj s o := by
+  unfold setP
+  by_cases hr : s.readOnly a = true
+  · simp [hr]
+  · have hr' : s.readOnly a = false := by simpa using hr
+    by_cases h : o = a
+    · subst h; simp [hr', proj, upd]
+    · simp [hr', proj, upd, h]
+
+/-- **stack discipline (LIFO) + the `assigned`/back-up link**, for every program and any nesting depth -/
+theorem nested_lifo_stacks : ∀ (p : Prog), WF p → ∀ (s : St) (o : Nat),
+    (run p s).defs = s.defs ∧ SameStacks (proj s o) (proj (run p s) o) ∧
+      (Good (proj s o) → Good (proj (run p s) o))
+  | .skip, _, s, o => ⟨rfl, ⟨rfl, rfl, rfl, rfl⟩, id⟩
+  | .set a x v, _, s, o => by
+    refine ⟨?_, ?_, ?_⟩
+    · simp only [run, setP]; split <;> rfl
+    · simp only [run, proj_set]; split <;> exact ⟨rfl, rfl, rfl, rfl⟩
+    · simp only [run, proj_set]
+      split
+      · intro _; unfold Good; simp only []; split
+        · trivial
+        · intro h; simp [SINCE_ANYTHING, SINCE_BACKUP] at h
+      · exact id
+  | .cacheSet a k v, _, s, o => by
+    refine ⟨rfl, ⟨rfl, rfl, rfl, rfl⟩, ?_⟩
+    intro h; exact h
+  | .gridSet a g, _, s, o => by
+    simp only [run, setGrid]
+    cases hg : s.grid a with
+    | none => exact ⟨rfl, ⟨rfl, rfl, rfl, rfl⟩, id⟩
+    | some g0 =>
+      refine ⟨rfl, ⟨rfl, rfl, rfl, ?_⟩, fun h => h⟩
+      simp only [proj, upd]
+      by_cases h : o = a
+      · subst h; simp [hg]
+      · simp [h]
+  | .seq a b, hw, s, o => by
+    obtain ⟨a1, a2, a3⟩ := nested_lifo_stacks a hw.1 s o
+    obtain ⟨b1, b2, b3⟩ := nested_lifo_stacks b hw.2 (run a s) o
+    refine ⟨by simp only [run]; rw [b1, a1], ?_, fun h => b3 (a3 h)⟩
+    exact ⟨b2.1.trans a2.1, b2.2.1.trans a2.2.1, b2.2.2.1.trans a2.2.2.1, b2.2.2.2.trans a2.2.2.2⟩
+  | .scope objs keep body, hw, s, o => by
+    obtain ⟨b1, b2, b3⟩ := nested_lifo_stacks body hw.2 (enter s objs) o
+    have hd : (run (.scope objs keep body) s).defs = s.defs := by
+      simp only [run]; rw [defs_exit, b1, defs_enter]
+    refine ⟨hd, ?_⟩
+    simp only [run]
+    rw [proj_exit _ _ _ hw.1, b1, defs_enter]
+    rw [proj_enter _ _ hw.1] at b2 b3
+    by_cases ho : o ∈ objs
+    · simp only [ho, if_true] at b2 b3 ⊢
+      have hg := b3 (good_push _)
+      obtain ⟨s1, s2, s3, s4⟩ := b2
+      generalize proj (run body (enter s objs)) o = t at *
+      generalize proj s o = q at *
+      simp only [pushPO] at s1 s2 s3 s4
+      constructor
+      · refine ⟨?_, ?_, ?_, ?_⟩
+        · simp [popPO, s1]
+        · simp [popPO, s1, s2]
+        · simp only [popPO, s1]
+          cases hq : q.grid with
+          | none =>
+            rw [hq] at s3 s4
+            have : t.grid = none := by
+              cases ht : t.grid with
+              | none => rfl
+              | some _ => rw [ht] at s4; simp at s4
+            simp [this, s3]
+          | some g =>
+            rw [hq] at s3 s4
+            obtain ⟨g', ht⟩ : ∃ g', t.grid = some g' := by
+              cases ht : t.grid with
+              | none => rw [ht] at s4; simp at s4
+              | some g' => exact ⟨g', rfl⟩
+            simp [ht, s3]
+        · simp only [popPO, s1]
+          cases hq : q.grid with
+          | none =>
+            rw [hq] at s4
+            cases ht : t.grid with
+            | none => simp
+            | some _ => rw [ht] at s4; simp at s4
+          | some g =>
+            rw [hq] at s3 s4
+            cases ht : t.grid with
+            | none => rw [ht] at s4; simp at s4
+            | some g' => simp [s3]
+      · intro hq
+        unfold Good
+        simp only [popPO, s1]
+        unfold Good at hq hg
+        rw [s1] at hg
+        simp only [] at hg
+        cases hqb : q.backup with
+        | nil => trivial
+        | cons fr0 rest0 =>
+          rw [hqb] at hq
+          simp only [] at hq ⊢
+          by_cases hch : (chOf keep (s.defs o) t { vals := q.vals, assigned := q.assigned }).isEmpty = true
+          · simp only [hch, if_true]
+            intro ha
+            have hq' := hq ha
+            have hnil : chOf keep (s.defs o) t { vals := q.vals, assigned := q.assigned } = [] := by
+              simpa using hch
+            funext x
+            simp [hnil]
+            exact congrFun hq' x
+          · simp only [hch]
+            intro ha; simp [SINCE_ANYTHING, SINCE_BACKUP] at ha
+    · simp only [ho, if_false] at b2 b3 ⊢
+      exact ⟨b2, b3⟩
+
+
+/-- the slice of an object at the end of a scope body: its stacks are the entry stacks plus one frame -/
+private theorem body_slice (objs : List Nat) (body : Prog) (hnd : objs.Nodup) (hw : WF body) (s : St) (o : Nat)
+    (ho : o ∈ objs) :
+    (run body (enter s objs)).defs = s.defs ∧
+    SameStacks (pushPO (proj s o)) (proj (run body (enter s objs)) o) ∧
+    Good (proj (run body (enter s objs)) o) := by
+  obtain ⟨b1, b2, b3⟩ := nested_lifo_stacks body hw (enter s objs) o
+  rw [proj_enter _ _ hnd] at b2 b3
+  simp only [ho, if_true] at b2 b3
+  exact ⟨by rw [b1, defs_enter], b2, b3 (good_push _)⟩
+
+private theorem proj_scope (objs keep : List Nat) (body : Prog) (hnd : objs.Nodup) (hw : WF body) (s : St) (o : Nat)
+    (ho : o ∈ objs) :
+    proj (run (.scope objs keep body) s) o = popPO keep (s.defs o) (proj (run body (enter s objs)) o) := by
+  simp only [run]
+  rw [proj_exit _ _ _ hnd, (body_slice objs body hnd hw s o ho).1]
+  simp [ho]
+
+/-- **retain_restores** (any body, any nesting depth inside it): after the scope, on every object of
+the scope, a parameter that is in the keep-set (and belongs to the object's class) has the value it
+had at the end of the body; every other parameter has its entry value. -/
+theorem retain_restores (objs keep : List Nat) (body : Prog) (hnd : objs.Nodup) (hw : WF body)
+    (s : St) (o : Nat) (ho : o ∈ objs) (x : Nat) :
+    (run (.scope objs keep body) s).vals o x =
+      if x ∈ keep ∧ x ∈ s.defs o then (run body (enter s objs)).vals o x else s.vals o x := by
+  obtain ⟨_, st, hg⟩ := body_slice objs body hnd hw s o ho
+  have hp := proj_scope objs keep body hnd hw s o ho
+  have hv : (run (.scope objs keep body) s).vals o x = (proj (run (.scope objs keep body) s) o).vals x := rfl
+  have ht : (run body (enter s objs)).vals o x = (proj (run body (enter s objs)) o).vals x := rfl
+  have hs : s.vals o x = (proj s o).vals x := rfl
+  rw [hv, ht, hs, hp]
+  generalize proj (run body (enter s objs)) o = t at *
+  generalize proj s o = q at *
+  obtain ⟨s1, _, _, _⟩ := st
+  simp only [pushPO] at s1
+  unfold Good at hg
+  rw [s1] at hg
+  simp only [] at hg
+  simp only [popPO, s1]
+  by_cases hx : x ∈ chOf keep (s.defs o) t { vals := q.vals, assigned := q.assigned }
+  · simp only [hx, if_true]
+    have : x ∈ keep ∧ x ∈ s.defs o := by
+      unfold chOf at hx
+      split at hx
+      · simp only [List.mem_filter, decide_eq_true_eq] at hx; exact hx.1
+      · cases hx
+    simp [this]
+  · simp only [hx, if_false]
+    by_cases hk : x ∈ keep ∧ x ∈ s.defs o
+    · simp only [hk, and_self, if_true]
+      -- kept but not "changed": either nothing was assigned since the back-up, or the value is the same
+      unfold chOf at hx
+      split at hx
+      · simp only [List.mem_filter, decide_eq_true_eq, hk, and_self, true_and, ne_eq, decide_not,
+          Bool.not_eq_eq_eq_not, Bool.not_true, decide_eq_false_iff_not, Decidable.not_not] at hx
+        exact hx
+      · rename_i ha
+        have ha' : t.assigned &&& SINCE_BACKUP = 0 := by simpa using ha
+        exact (congrFun (hg ha') x).symm
+    · simp [hk]
+
+/-- **nested_lifo / full restore**: with an empty keep-set the whole slice of every object of the scope
+(all values, `assigned`, cache, grid and the three back-up chains) is exactly its entry slice, whatever
+the body did and however deeply it nested further scopes. -/
+theorem scope_restores_all (objs : List Nat) (body : Prog) (hnd : objs.Nodup) (hw : WF body)
+    (s : St) (o : Nat) (ho : o ∈ objs) :
+    (run (.scope objs [] body) s).vals o = s.vals o ∧
+    (run (.scope objs [] body) s).assigned o = s.assigned o ∧
+    (run (.scope objs [] body) s).backup o = s.backup o := by
+  obtain ⟨_, st, _⟩ := body_slice objs body hnd hw s o ho
+  have hp := proj_scope objs [] body hnd hw s o ho
+  have e1 : (run (.scope objs [] body) s).vals o = (proj (run (.scope objs [] body) s) o).vals := rfl
+  have e2 : (run (.scope objs [] body) s).assigned o = (proj (run (.scope objs [] body) s) o).assigned := rfl
+  have e3 : (run (.scope objs [] body) s).backup o = (proj (run (.scope objs [] body) s) o).backup := rfl
+  rw [e1, e2, e3, hp]
+  generalize proj (run body (enter s objs)) o = t at *
+  obtain ⟨s1, _, _, _⟩ := st
+  simp only [pushPO] at s1
+  have hch : ∀ fr, chOf [] (s.defs o) t fr = [] := by intro fr; unfold chOf; split <;> simp
+  simp [popPO, s1, hch, proj]
+
+/-- **cache_no_leak and grid restore** (any keep-set, any body): inside the scope the cache starts
+empty; after it the cache and the grid's (unitSteps, bounds, offset) are the entry ones. -/
+theorem cache_grid_restored (objs keep : List Nat) (body : Prog) (hnd : objs.Nodup) (hw : WF body)
+    (s : St) (o : Nat) (ho : o ∈ objs) :
+    (enter s objs).cache o = (fun _ => none) ∧
+    (run (.scope objs keep body) s).cache o = s.cache o ∧
+    (run (.scope objs keep body) s).grid o = s.grid o ∧
+    (run (.scope objs keep body) s).cacheBk o = s.cacheBk o ∧
+    (run (.scope objs keep body) s).gridBk o = s.gridBk o := by
+  obtain ⟨_, st, _⟩ := body_slice objs body hnd hw s o ho
+  have hp := proj_scope objs keep body hnd hw s o ho
+  have he : (enter s objs).cache o = (proj (enter s objs) o).cache := rfl
+  have e1 : (run (.scope objs keep body) s).cache o = (proj (run (.scope objs keep body) s) o).cache := rfl
+  have e2 : (run (.scope objs keep body) s).grid o = (proj (run (.scope objs keep body) s) o).grid := rfl
+  have e3 : (run (.scope objs keep body) s).cacheBk o = (proj (run (.scope objs keep body) s) o).cacheBk := rfl
+  have e4 : (run (.scope objs keep body) s).gridBk o = (proj (run (.scope objs keep body) s) o).gridBk := rfl
+  rw [he, e1, e2, e3, e4, hp, proj_enter _ _ hnd]
+  simp only [ho, if_true]
+  generalize proj (run body (enter s objs)) o = t at *
+  obtain ⟨s1, s2, s3, s4⟩ := st
+  simp only [pushPO] at s1 s2 s3 s4
+  refine ⟨rfl, ?_, ?_, ?_, ?_⟩
+  · simp [popPO, s1, s2, proj]
+  · simp only [popPO, s1, proj]
+    cases hq : s.grid o with
+    | none =>
+      simp only [proj, hq] at s4
+      cases ht : t.grid with
+      | none => rfl
+      | some _ => rw [ht] at s4; simp at s4
+    | some g =>
+      simp only [proj, hq] at s3 s4
+      cases ht : t.grid with
+      | none => rw [ht] at s4; simp at s4
+      | some g' => simp [s3]
+  · simp [popPO, s1, s2, proj]
+  · simp only [popPO, s1, proj]
+    cases hq : s.grid o with
+    | none =>
+      simp only [proj, hq] at s3 s4
+      cases ht : t.grid with
+      | none => simpa using s3
+      | some _ => rw [ht] at s4; simp at s4
+    | some g =>
+      simp only [proj, hq] at s3 s4
+      cases ht : t.grid with
+      | none => rw [ht] at s4; simp at s4
+      | some g' => simp [s3]
+
+/-- objects outside the scope are not touched by entering or leaving it -/
+theorem scope_frame (objs keep : List Nat) (body : Prog) (hnd : objs.Nodup) (s : St) (o : Nat) (ho : o ∉ objs) :
+    proj (run (.scope objs keep body) s) o = proj (run body (enter s objs)) o ∧
+    proj (enter s objs) o = proj s o := by
+  simp only [run]
+  rw [proj_exit _ _ _ hnd, proj_enter _ _ hnd]
+  simp [ho]
+
+/-- non-vacuity: the hypotheses are satisfiable -- two nested scopes, the outer keeps parameter 1 which is
+assigned before the inner scope opens -/
+example : WF (Prog.scope [0, 1] [1] (.seq (.set 0 1 9) (.seq (.scope [0] [] (.seq (.set 0 0 4) (.gridSet 1 (8, 8, 8)))) (.set 1 2 3)))) := by
+  simp [WF]
+
+example (s : St) : (run (.scope [0, 1] [1] (.seq (.set 0 1 9) (.scope [0] [] (.set 0 0 4)))) s).vals 0 0 = s.vals 0 0 := by
+  have h := retain_restores [0, 1] [1] (.seq (.set 0 1 9) (.scope [0] [] (.set 0 0 4))) (by decide) (by simp [WF]) s 0 (by simp) 0
+  simpa using h
+
+/-! ### copies and serial numbers -/
+
+/-- **copy_equal_independent**: a deep copy carries the original's values; a later assignment on either
+side does not show on the other. -/
+theorem copy_equal_independent (s : St) (o : Nat) (ho : o < s.next) :
+    (deepcopyObj s o).vals s.next = s.vals o ∧
+    (∀ x v, ((setP (deepcopyObj s o) o x v).1).vals s.next = s.vals o) ∧
+    (∀ x v, ((setP (deepcopyObj s o) s.next x v).1).vals o = s.vals o) := by
+  have hne : o ≠ s.next := Nat.ne_of_lt ho
+  refine ⟨by simp [deepcopyObj, upd], ?_, ?_⟩
+  · intro x v; unfold setP; split
+    · simp [deepcopyObj, upd]
+    · simp [deepcopyObj, upd, hne.symm]
+  · intro x v; unfold setP; split
+    · simp [deepcopyObj, upd, hne]
+    · simp [deepcopyObj, upd, hne]
+
+theorem pickle_equal (s : St) (o : Nat) :
+    (pickleObj s o).vals s.next = s.vals o ∧ (pickleObj s o).serial s.next = s.serial o := by
+  simp [pickleObj, upd]
+
+/-- serial numbers of the live objects are below the counter and pairwise distinct -/
+def SerInv (s : St) : Prop :=
+  (∀ o, o < s.next → s.serial o < s.counter) ∧
+  (∀ o o', o < s.next → o' < s.next → s.serial o = s.serial o' → o = o')
+
+theorem serinv_empty : SerInv St.empty := ⟨fun o h => by simp [St.empty] at h, fun o o' h => by simp [St.empty] at h⟩
+
+theorem serinv_step (s : St) (h : Hist) (hs : SerInv s) : SerInv (stepHist s h) := by
+  obtain ⟨h1, h2⟩ := hs
+  have key : ∀ (t : St), t.next = s.next + 1 → t.counter = s.counter + 1 →
+      t.serial = upd s.serial s.next s.counter → SerInv t := by
+    intro t hn hc hser
+    constructor
+    · intro o ho
+      rw [hser, hc]; simp only [upd]
+      by_cases e : o = s.next
+      · simp [e]
+      · simp [e]; have := h1 o (by omega); omega
+    · intro o o' ho ho' he
+      rw [hser] at he; simp only [upd] at he
+      by_cases e : o = s.next <;> by_cases e' : o' = s.next
+      · omega
+      · simp [e, e'] at he; have := h1 o' (by omega); omega
+      · simp [e, e'] at he; have := h1 o (by omega); omega
+      · simp [e, e'] at he; exact h2 o o' (by omega) (by omega) he
+  cases h with
+  | create d => exact key _ rfl rfl rfl
+  | deepcopy o => exact key _ rfl rfl rfl
+
+/-- **serials_unique** over any history of creations and deep copies; **serial_fresh_monotone**: the
+new object's serial is the old counter, strictly above every live serial. -/
+theorem serials_unique : ∀ (hist : List Hist) (s : St), SerInv s → SerInv (hist.foldl stepHist s)
+  | [], _, h => h
+  | a :: rest, s, h => serials_unique rest (stepHist s a) (serinv_step s a h)
+
+theorem serial_fresh_monotone (s : St) (o : Nat) (hs : SerInv s) :
+    (deepcopyObj s o).serial s.next = s.counter ∧ ∀ o', o' < s.next → s.serial o' < (deepcopyObj s o).serial s.next := by
+  refine ⟨by simp [deepcopyObj, upd], ?_⟩
+  intro o' ho'; simp [deepcopyObj, upd]; exact hs.1 o' ho'
+
+
 end ArmiVerif.Params
